@@ -148,7 +148,7 @@ Qed.
 Lemma u_item_ok nm bl : ident_ok nm -> Forall lub_ok bl -> ubs_ok [] (map bub bl) -> bl <> [] -> item_ok (u_item nm bl) (u_x nm bl).
 Proof.
   intros Hn Hf Hu Hne. assert (Hne' : map bub bl <> []) by (destruct bl; [congruence|discriminate]). constructor.
-  - intros g f tail c. cbn [u_item it_need it_toks it_upd]. exists (usum (map bub bl) + S g). split; [lia|].
+  - intros g f tail c. cbn [u_item it_need it_toks it_upd]. exists (usum (map bub bl) + S (S g)). split; [lia|].
     replace (usum (map bub bl) + 4 + g) with (S (usum (map bub bl) + S (S (S g)))) by lia. apply (top_union _ _ _ _ _ _ Hu Hne').
   - intros g out nl tail c. cbn [u_item it_fneed it_toks it_text it_blank]. rewrite andb_true_r. exists (ufsum (map bub bl) + S (S g)). split; [lia|].
     replace (ufsum (map bub bl) + 4 + g) with (S (S (ufsum (map bub bl) + S (S g)))) by lia. apply (fmt_top_union _ _ _ _ _ _ _ Hne').
